@@ -34,7 +34,7 @@ func TestC10Configured(t *testing.T) {
 		c := recCfg.Begin()
 		wrap := rapid.Bool().Draw(t, "existenceCaching")
 		local := &pb.BlobAccessConfiguration{Backend: &pb.BlobAccessConfiguration_Local{Local: &pb.LocalBlobAccessConfiguration{
-			KeyLocationMapBackend:            &pb.LocalBlobAccessConfiguration_KeyLocationMapInMemory_{KeyLocationMapInMemory: &pb.LocalBlobAccessConfiguration_KeyLocationMapInMemory{Entries: 1021}},
+			KeyLocationMapBackend:            &pb.LocalBlobAccessConfiguration_KeyLocationMapInMemory_{KeyLocationMapInMemory: &pb.LocalBlobAccessConfiguration_KeyLocationMapInMemory{Entries: int64(rapid.SampledFrom([]int{1021, 1024, 1000, 999}).Draw(t, "indexEntries"))}},
 			KeyLocationMapMaximumGetAttempts: 16,
 			KeyLocationMapMaximumPutAttempts: 64,
 			OldBlocks:                        2,
